@@ -1,11 +1,98 @@
-import Sif.Spec.C01
+import Sif.Proofs.C01Hooks
+import Sif.Model.Clp.Machine
 /-
-  C01 — AMM solvency.  (theorems are added below as they are proved)
+  C01 — AMM solvency: for every token the coins held by the liquidity-pool module account cover
+  the sum over all pools of recorded balance and margin custody plus the rewards bucket.
+  Property theorems only.
 -/
 namespace Sif.Props.C01
-open Sif Sif.Clp Sif.Spec.C01
+open Sif Sif.Clp Sif.AList Sif.Spec.C01
 
 /-- the empty chain state is solvent -/
-theorem solvent_init : solvent ({} : St) = true := by decide
+theorem solvent_init : Solv ({} : St) := solv_init
+
+/-- hypotheses on one operation: messages are signed by ordinary accounts (the module account has
+    no key); `fund` (coins arriving from outside the AMM) never takes coins from the module.
+    `endBlock` is covered by `endBlock_solvent_Statement` below (not proved yet). -/
+def OpOK : Op → Prop
+  | .create a _ _ _ | .add a _ _ _ | .swap a _ _ _ _ | .bucket a _ _ => a ≠ clpAcct
+  | .endBlock => False
+  | _ => True
+
+/-- full statement for the block hook (provider distribution + depth rewards), still unproved:
+    it needs the clamp lemma Σ provider amounts ≤ rnd(rate·balance) ≤ balance for rates in [0,1]
+    and, in distribute mode, that every rewarded pool has a provider record -/
+def endBlock_solvent_Statement : Prop :=
+  ∀ s s', Solv s → endBlocker s = .ok s' → Solv s'
+
+/-- every message and the epoch hook preserve solvency -/
+theorem step_solvent (s : St) (op : Op) (hinv : Solv s) (hok : OpOK op) : Solv (step s op) := by
+  cases op with
+  | create a sym n e =>
+    simp only [step, txR]; split
+    · exact createPool_solv hok hinv ‹_›
+    · exact hinv
+  | add a sym n e =>
+    simp only [step, txR]; split
+    · exact addLiquidity_solv hok hinv ‹_›
+    · exact hinv
+  | remove a sym w =>
+    simp only [step, txR]; split
+    · exact removeLiquidity_solv hinv ‹_›
+    · exact hinv
+  | removeUnits a sym u =>
+    simp only [step, txR]; split
+    · exact removeLiquidityUnits_solv hinv ‹_›
+    · exact hinv
+  | swap a sent recv amt mn =>
+    simp only [step]; split
+    · exact swap_solv hok hinv ‹_›
+    · exact hinv
+  | decommission a sym =>
+    simp only [step, txR]; split
+    · exact decommissionPool_solv hinv ‹_›
+    · exact hinv
+  | bucket a d n =>
+    simp only [step, txR]; split
+    · exact addToBucket_solv hok hinv ‹_›
+    · exact hinv
+  | endBlock => exact absurd hok id
+  | epochEnd =>
+    simp only [step, hookM]; split
+    · exact afterEpochEnd_solv hinv ‹_›
+    · exact hinv
+  | setHeight h =>
+    obtain ⟨a, b, c⟩ := hinv
+    exact ⟨a, poolKeysOK_congr rfl b, fun d => c d⟩
+  | setParams p =>
+    obtain ⟨a, b, c⟩ := hinv
+    exact ⟨a, poolKeysOK_congr rfl b, fun d => c d⟩
+  | fund a d0 n =>
+    obtain ⟨h1, h2, h3⟩ := hinv
+    refine ⟨h1, poolKeysOK_congr rfl h2, ?_⟩
+    intro d
+    show recorded s d ≤ (s.setBal a d0 (s.bal a d0 + n)).bal clpAcct d
+    rw [bal_setBal]
+    have := h3 d
+    split
+    · rename_i hc; obtain ⟨rfl, rfl⟩ := hc; omega
+    · exact this
+
+/-- solvency in every reachable state, for histories of any length -/
+theorem reachable_solvent_partial (ops : List Op) (s : St) (hinv : Solv s) (hok : ∀ op ∈ ops, OpOK op) :
+    Solv (run s ops) := by
+  induction ops generalizing s with
+  | nil => exact hinv
+  | cons op rest ih =>
+    unfold run; simp only [List.foldl]
+    exact ih (step s op) (step_solvent s op hinv (hok op (List.mem_cons_self ..)))
+      (fun o ho => hok o (List.mem_cons_of_mem _ ho))
+
+/-- the Boolean the judge evaluates on implementation states is implied by the invariant -/
+theorem solvent_bool_of_solv (s : St) (h : Solv s) : solvent s = true := by
+  unfold solvent
+  simp only [List.all_eq_true, decide_eq_true_eq]
+  intro d _
+  exact h.2.2 d
 
 end Sif.Props.C01
